@@ -1,8 +1,1037 @@
-//! C02 - not built yet
-use vlib::report::{Ctx, Outcome};
+//! C02 - settlement: each send resolves once, with its own delivery's outcome.
+//!
+//! Part A (sender side, history search): a real client with TWO `Sender` links on one session against the
+//! scripted receiver.  Four deliveries are put in flight (link A: ids 0 and 3, link B: ids 1 and 2, so that the
+//! ids of the two links interleave: 1..2 lies on one link, 0..1 and 2..3 span both), then every history of
+//! peer events (dispositions for single ids / ranges / unknown ids, settled or not, every delivery state, plus
+//! "the application sends one more message on link A / B") is executed on a fresh real stack, for every
+//! snd-settle-mode x rcv-settle-mode pair.  Oracle: the statement of C02 (see `ModelA::judge`).
+//!
+//! Part B (receiver side, history search): `c02_rx.rs` - a real `Receiver` against a scripted sender.
+//!
+//! Part C (schedule exploration): real client senders against a real listener whose receiver accepts at once;
+//! every schedule within the deviation bound; every send must resolve `accepted`.
+//!
+//! "Exactly once": a `DeliveryFut` is a Rust future, so "never twice" holds by construction of the API (a
+//! completed future is not polled again); what is checked is that every future completes when - and not
+//! before - the first terminal disposition covering its own delivery-id arrives, and with that state.
+#[path = "c02_rx.rs"]
+mod rx;
 
-pub fn run(_ctx: &Ctx) -> Outcome {
+use crate::scen;
+use fe2o3_amqp::acceptor::{ConnectionAcceptor, LinkAcceptor, LinkEndpoint, SessionAcceptor};
+use fe2o3_amqp::link::Sender;
+use fe2o3_amqp::{Connection, Sendable, Session};
+use fe2o3_amqp_types::definitions::{self, AmqpError, ReceiverSettleMode, Role, SenderSettleMode};
+use fe2o3_amqp_types::messaging::{Accepted, DeliveryState, Message, Modified, Outcome as AmqpOutcome, Received, Rejected, Released};
+use fe2o3_amqp_types::performatives::*;
+use fe2o3_amqp_types::primitives::Value;
+use serde::{Deserialize, Serialize};
+use serde_json::json;
+use std::collections::{BTreeMap, BTreeSet};
+use std::sync::atomic::{AtomicU64, Ordering};
+use std::sync::{Arc, Mutex};
+use std::time::{Duration, Instant};
+use vlib::explore::{explore, Bounds};
+use vlib::history::{search, HistOut};
+use vlib::peer::{drive, settle, Auto, Body, Dirn, Peer, WFrame};
+use vlib::report::{Ctx, Outcome};
+use vlib::runner::{run_exec, RunCfg, Scenario};
+use vlib::tape::Kind;
+use vlib::util::h64;
+use vlib::vpipe::Pipe;
+
+/// horizon for library calls that complete without waiting for the peer's decision
+pub const SHORT: Duration = Duration::from_millis(30);
+
+// ------------------------------------------------------------------------------------------------
+// configuration and events
+// ------------------------------------------------------------------------------------------------
+
+#[derive(Debug, Clone, Copy, PartialEq, Eq, Hash, Serialize, Deserialize)]
+pub enum Snd {
+    Settled,
+    Unsettled,
+    Mixed,
+}
+#[derive(Debug, Clone, Copy, PartialEq, Eq, Hash, Serialize, Deserialize)]
+pub enum Rcv {
+    First,
+    Second,
+}
+impl Snd {
+    fn mode(self) -> SenderSettleMode {
+        match self {
+            Snd::Settled => SenderSettleMode::Settled,
+            Snd::Unsettled => SenderSettleMode::Unsettled,
+            Snd::Mixed => SenderSettleMode::Mixed,
+        }
+    }
+}
+impl Rcv {
+    pub fn mode(self) -> ReceiverSettleMode {
+        match self {
+            Rcv::First => ReceiverSettleMode::First,
+            Rcv::Second => ReceiverSettleMode::Second,
+        }
+    }
+}
+
+#[derive(Debug, Clone, Copy, PartialEq, Eq, Hash, Serialize, Deserialize)]
+pub enum St {
+    Acc,
+    Rej,
+    Rel,
+    Mod,
+    /// `received`: not a terminal state
+    Rcvd,
+}
+
+#[derive(Debug, Clone, Copy, PartialEq, Eq, Hash, Serialize, Deserialize)]
+pub enum Ev {
+    /// the scripted receiver sends disposition(role=receiver, first..last, settled, state); ids are relative
+    /// to the delivery-id of the first delivery of the scenario
+    D { first: u32, last: u32, settled: bool, st: St },
+    /// the application sends one more message on link A / link B
+    SendA,
+    SendB,
+}
+
+fn d(first: u32, last: u32, settled: bool, st: St) -> Ev {
+    Ev::D { first, last, settled, st }
+}
+
+impl Ev {
+    fn name(&self) -> String {
+        match self {
+            Ev::D { first, last, settled, st } => {
+                if first == last {
+                    format!("disp({first},{},{st:?})", if *settled { "settled" } else { "unsettled" })
+                } else {
+                    format!("disp({first}..{last},{},{st:?})", if *settled { "settled" } else { "unsettled" })
+                }
+            }
+            Ev::SendA => "sendA".into(),
+            Ev::SendB => "sendB".into(),
+        }
+    }
+}
+
+/// The delivery state the scripted receiver puts on the wire for an event.  `rejected` and `modified` carry
+/// values that depend on the event's ids so that two different dispositions never carry equal states by accident.
+fn wire_state(first: u32, last: u32, st: St) -> DeliveryState {
+    match st {
+        St::Acc => DeliveryState::Accepted(Accepted {}),
+        St::Rej => DeliveryState::Rejected(Rejected {
+            error: Some(definitions::Error::new(AmqpError::NotAllowed, Some(format!("rejected-by-peer-{first}-{last}")), None)),
+        }),
+        St::Rel => DeliveryState::Released(Released {}),
+        St::Mod => DeliveryState::Modified(Modified {
+            delivery_failed: Some(true),
+            undeliverable_here: Some(first % 2 == 0),
+            message_annotations: None,
+        }),
+        St::Rcvd => DeliveryState::Received(Received { section_number: 0, section_offset: 3 }),
+    }
+}
+
+/// what `send` has to return for a delivery to which the receiver applied this terminal state
+fn expected_result(s: &DeliveryState) -> Option<String> {
+    let o = match s.clone() {
+        DeliveryState::Accepted(a) => AmqpOutcome::Accepted(a),
+        DeliveryState::Rejected(r) => AmqpOutcome::Rejected(r),
+        DeliveryState::Released(r) => AmqpOutcome::Released(r),
+        DeliveryState::Modified(m) => AmqpOutcome::Modified(m),
+        _ => return None,
+    };
+    Some(format!("Ok({:?})", o))
+}
+
+/// The event alphabet.  `wide` adds more single-id / flag / state combinations (thorough tier).
+/// In rcv-settle-mode second the receiver's dispositions are unsettled (it must not settle before the
+/// sender); a few settled ones stay in the alphabet and are enabled only once the sender has settled.
+pub fn alphabet(rcv: Rcv, wide: bool) -> Vec<Ev> {
+    use St::*;
+    let mut v = vec![
+        // single ids
+        d(1, 1, true, Acc),
+        d(1, 1, false, Acc),
+        d(0, 0, true, Rel),
+        d(3, 3, false, Mod),
+        d(2, 2, false, Rej),
+        d(2, 2, false, Rcvd),
+        // ranges: two deliveries of one link; spanning both links; three; all four
+        d(1, 2, false, Acc),
+        d(0, 1, true, Rej),
+        d(0, 2, true, Acc),
+        d(1, 3, false, Rel),
+        d(0, 3, true, Acc),
+        d(0, 3, false, Rcvd),
+        d(2, 3, true, Mod),
+        // ids never sent / not sent yet
+        d(9, 9, true, Acc),
+        d(3, 5, false, Acc),
+        d(4, 4, true, Rej),
+        Ev::SendA,
+        Ev::SendB,
+    ];
+    if wide {
+        v.extend([d(0, 0, false, Rej), d(3, 3, true, Acc), d(2, 2, true, Rel), d(0, 1, false, Mod), d(2, 3, false, Acc), d(0, 3, false, Acc)]);
+    }
+    if rcv == Rcv::Second {
+        let keep_settled = [d(1, 1, true, Acc), d(0, 3, true, Acc)];
+        let mut w: Vec<Ev> = vec![];
+        for e in v {
+            let e2 = match e {
+                Ev::D { first, last, settled: true, st } if !keep_settled.contains(&e) => d(first, last, false, st),
+                other => other,
+            };
+            if !w.contains(&e2) {
+                w.push(e2);
+            }
+        }
+        v = w;
+    }
+    v
+}
+
+// ------------------------------------------------------------------------------------------------
+// the oracle's own bookkeeping (written from the statement)
+// ------------------------------------------------------------------------------------------------
+
+#[derive(Debug, Clone)]
+struct Dl {
+    link: usize,
+    /// delivery-id relative to the first delivery of the scenario
+    id: u32,
+    tag: Vec<u8>,
+    presettled: bool,
+    /// expected result of `send` = state of the first terminal disposition covering this delivery
+    terminal: Option<String>,
+    /// the receiver has sent settled=true for it
+    peer_settled: bool,
+    /// the library's sender has sent a settled disposition covering it
+    lib_settled: bool,
+    /// the library settled it although the receiver had reported no terminal outcome (already reported)
+    settled_early: bool,
+}
+
+#[derive(Debug, Clone, Default)]
+pub struct Obs {
+    pub executed: usize,
+    /// (signature, detail, number of events executed when it was detected)
+    pub fails: Vec<(String, String, usize)>,
+    pub state_keys: Vec<u64>,
+    pub trace: Vec<String>,
+    pub machinery: Option<String>,
+    /// non-vacuity counters
+    pub outstanding_at_start: usize,
+    pub resolved_acc: usize,
+    pub resolved_other: usize,
+    pub presettled_immediate: usize,
+    pub sender_settles_seen: usize,
+    pub attach_unsettled_entries: usize,
+    pub final_checked: bool,
+}
+
+type Log = Arc<Mutex<Vec<(usize, String)>>>;
+
+fn covered(first: u32, last: u32) -> std::ops::RangeInclusive<u32> {
+    first..=last
+}
+
+async fn do_send(peer: &mut Peer, sender: &mut Sender, k: usize, settled: Option<bool>, log: &Log) -> Result<(), String> {
+    let msg = Message::builder().data(serde_bytes::ByteBuf::from(scen::body(k, 8))).build();
+    let sendable = Sendable::builder().message(msg).settled(settled).build();
+    match drive(peer, sender.send_batchable(sendable), SHORT).await {
+        Some(Ok(fut)) => {
+            let log = log.clone();
+            tokio::spawn(async move {
+                let r = fut.await;
+                let s = match r {
+                    Ok(o) => format!("Ok({:?})", o),
+                    Err(e) => format!("Err({:?})", e),
+                };
+                log.lock().unwrap().push((k, s));
+            });
+            Ok(())
+        }
+        Some(Err(e)) => Err(format!("send_batchable #{k} failed: {e:?}")),
+        None => Err(format!("send_batchable #{k} hangs although the link has credit")),
+    }
+}
+
+/// transfers the library has written so far: (handle, delivery-id, tag, settled flag), one per delivery
+fn lib_transfers(trace: &[WFrame]) -> Vec<(u32, Option<u32>, Vec<u8>, bool)> {
+    trace
+        .iter()
+        .filter(|w| w.dir == Dirn::FromLib)
+        .filter_map(|w| match &w.body {
+            Body::Perf(Performative::Transfer(t)) if t.delivery_tag.is_some() => {
+                Some((t.handle.0, t.delivery_id, t.delivery_tag.as_ref().map(|x| x.to_vec()).unwrap_or_default(), t.settled.unwrap_or(false)))
+            }
+            _ => None,
+        })
+        .collect()
+}
+
+pub async fn scenario_a(snd: Snd, rcv: Rcv, events: Vec<Ev>) -> Obs {
+    let mut obs = Obs::default();
+    let mut auto = Auto::default();
+    auto.accept_transfers = false;
+    auto.grant_credit = Some(100);
+    auto.rcv_settle_mode = Some(rcv.mode());
+    auto.incoming_window = 100_000;
+    let mut c = match scen::open_client(auto, 512).await {
+        Ok(c) => c,
+        Err(e) => {
+            obs.machinery = Some(e);
+            return obs;
+        }
+    };
+    let mut session = match scen::begin(&mut c, Session::builder()).await {
+        Ok(s) => s,
+        Err(e) => {
+            obs.machinery = Some(e);
+            return obs;
+        }
+    };
+    let mut senders: Vec<Sender> = vec![];
+    for name in ["link-A", "link-B"] {
+        let r = drive(
+            &mut c.peer,
+            Sender::builder().name(name).target("q").sender_settle_mode(snd.mode()).receiver_settle_mode(rcv.mode()).attach(&mut session),
+            scen::H,
+        )
+        .await;
+        match r {
+            Some(Ok(s)) => senders.push(s),
+            other => {
+                obs.machinery = Some(format!("attach {name} failed: {:?}", other.map(|r| r.map(|_| ()).map_err(|e| e.to_string()))));
+                return obs;
+            }
+        }
+    }
+    settle(&mut c.peer, 1).await;
+    let handles: Vec<u32> = ["link-A", "link-B"].iter().map(|n| c.peer.links.iter().find(|l| l.name == *n).map(|l| l.lib_handle).unwrap_or(u32::MAX)).collect();
+    let log: Log = Default::default();
+    // ---- four deliveries in flight: A, B, B, A.  In mode mixed the application chooses per message.
+    let initial: [(usize, Option<bool>); 4] = match snd {
+        Snd::Mixed => [(0, None), (1, Some(true)), (1, Some(false)), (0, Some(false))],
+        _ => [(0, None), (1, None), (1, None), (0, None)],
+    };
+    let mut sent_links: Vec<usize> = vec![];
+    for (k, (link, settled)) in initial.iter().enumerate() {
+        if let Err(e) = do_send(&mut c.peer, &mut senders[*link], k, *settled, &log).await {
+            obs.machinery = Some(e);
+            return obs;
+        }
+        sent_links.push(*link);
+    }
+    settle(&mut c.peer, 2).await;
+    let mut dls: Vec<Dl> = vec![];
+    let mut base = 0u32;
+    // (re)read the deliveries from the wire; returns a machinery message if the wire does not show them
+    macro_rules! absorb_transfers {
+        () => {{
+            let ts = lib_transfers(&c.peer.trace);
+            let mut err = None;
+            if ts.len() != sent_links.len() {
+                err = Some(format!("{} sends were started but the wire shows {} deliveries", sent_links.len(), ts.len()));
+            } else {
+                for (k, (h, id, tag, settled)) in ts.iter().enumerate().skip(dls.len()) {
+                    let Some(id) = id else {
+                        err = Some(format!("delivery #{k} has no delivery-id on the wire"));
+                        break;
+                    };
+                    if k == 0 {
+                        base = *id;
+                    }
+                    if *h != handles[sent_links[k]] {
+                        err = Some(format!("delivery #{k} went out on handle {h}, expected {}", handles[sent_links[k]]));
+                        break;
+                    }
+                    dls.push(Dl {
+                        link: sent_links[k],
+                        id: id.wrapping_sub(base),
+                        tag: tag.clone(),
+                        presettled: *settled,
+                        terminal: None,
+                        peer_settled: false,
+                        lib_settled: false,
+                        settled_early: false,
+                    });
+                }
+            }
+            err
+        }};
+    }
+    if let Some(e) = absorb_transfers!() {
+        obs.machinery = Some(e);
+        obs.trace = vlib::peer::trace_to_strings(&c.peer.trace);
+        return obs;
+    }
+    for (k, dl) in dls.iter().enumerate() {
+        if dl.id != k as u32 {
+            obs.machinery = Some(format!("delivery #{k} got relative delivery-id {}", dl.id));
+            return obs;
+        }
+    }
+    obs.outstanding_at_start = dls.iter().filter(|x| !x.presettled).count();
+    let mut notes: Vec<String> = vec![];
+    let mut disp_cursor = 0usize; // index into the wire trace up to which library dispositions were judged
+    judge(rcv, &mut dls, &c.peer.trace, &mut disp_cursor, &log, base, "start", None, 0, &mut obs);
+    obs.state_keys.push(state_key(&dls, &log));
+    // ---- the history
+    for (i, ev) in events.iter().enumerate() {
+        // enabledness (only protocol-valid receiver behaviour is generated)
+        let mut required: Option<BTreeSet<u32>> = None;
+        match ev {
+            Ev::D { first, last, settled, st } => {
+                let ws = wire_state(*first, *last, *st);
+                let exp = expected_result(&ws);
+                let mut ok = true;
+                for dl in dls.iter().filter(|x| !x.presettled && covered(*first, *last).contains(&x.id)) {
+                    // a receiver does not replace a terminal outcome it has announced by another state
+                    if let Some(t) = &dl.terminal {
+                        if exp.as_ref() != Some(t) {
+                            ok = false;
+                        }
+                    }
+                    // rcv-settle-mode second: the receiver does not settle before the sender has settled
+                    if rcv == Rcv::Second && *settled && !dl.lib_settled {
+                        ok = false;
+                    }
+                    // settled=true always comes with a terminal outcome in this alphabet
+                }
+                if !ok {
+                    break;
+                }
+                let mut req = BTreeSet::new();
+                for dl in dls.iter_mut().filter(|x| !x.presettled && covered(*first, *last).contains(&x.id)) {
+                    if dl.terminal.is_none() {
+                        dl.terminal = exp.clone();
+                    }
+                    if *settled {
+                        dl.peer_settled = true;
+                    }
+                    if rcv == Rcv::Second && dl.terminal.is_some() && !*settled && !dl.lib_settled {
+                        req.insert(dl.id);
+                    }
+                }
+                required = Some(req);
+                let disp = Disposition {
+                    role: Role::Receiver,
+                    first: base.wrapping_add(*first),
+                    last: if first == last { None } else { Some(base.wrapping_add(*last)) },
+                    settled: *settled,
+                    state: Some(ws),
+                    batchable: false,
+                };
+                let ch = c.peer.our_channel(0);
+                c.peer.send(ch, Performative::Disposition(disp));
+            }
+            Ev::SendA | Ev::SendB => {
+                let link = if *ev == Ev::SendA { 0 } else { 1 };
+                let settled = match snd {
+                    Snd::Mixed => Some(link == 1),
+                    _ => None,
+                };
+                let k = sent_links.len();
+                if let Err(e) = do_send(&mut c.peer, &mut senders[link], k, settled, &log).await {
+                    obs.machinery = Some(format!("after {:?}: {e}", events[..i].iter().map(|e| e.name()).collect::<Vec<_>>()));
+                    break;
+                }
+                sent_links.push(link);
+            }
+        }
+        settle(&mut c.peer, 2).await;
+        if let Some(e) = absorb_transfers!() {
+            obs.machinery = Some(e);
+            break;
+        }
+        obs.executed = i + 1;
+        notes.push(format!("-- event {}: {}", i + 1, ev.name()));
+        judge(rcv, &mut dls, &c.peer.trace, &mut disp_cursor, &log, base, &ev.name(), required, i + 1, &mut obs);
+        obs.state_keys.push(state_key(&dls, &log));
+    }
+    // ---- after the history: what does each side still hold as unsettled?  Non-closing detach + resume and
+    // read the `unsettled` map of the library's attach.
+    let resolved_before: Vec<(usize, String)> = log.lock().unwrap().clone();
+    if obs.machinery.is_none() && obs.executed == events.len() {
+        let n = events.len();
+        for (li, s) in senders.drain(..).enumerate().collect::<Vec<_>>().into_iter().rev() {
+            let name = if li == 0 { "link-A" } else { "link-B" };
+            let mark = c.peer.trace.len();
+            let det = match drive(&mut c.peer, s.detach(), SHORT).await {
+                Some(Ok(d)) => d,
+                Some(Err((_, e))) => {
+                    obs.machinery = Some(format!("non-closing detach of {name} failed: {e:?}"));
+                    break;
+                }
+                None => {
+                    obs.machinery = Some(format!("non-closing detach of {name} hangs"));
+                    break;
+                }
+            };
+            // the resume may go on to re-send unsettled deliveries; only its attach frame is looked at
+            let resumed = drive(&mut c.peer, det.resume(), SHORT).await;
+            settle(&mut c.peer, 1).await;
+            let att = c.peer.trace[mark..].iter().find_map(|w| match (&w.body, w.dir) {
+                (Body::Perf(Performative::Attach(a)), Dirn::FromLib) if a.name == name => Some(a.clone()),
+                _ => None,
+            });
+            let Some(att) = att else {
+                obs.machinery = Some(format!("no attach for {name} on the wire after detach + resume (resume: {:?})", resumed.map(|r| r.is_ok())));
+                break;
+            };
+            let keys: BTreeSet<Vec<u8>> = att.unsettled.as_ref().map(|m| m.keys().map(|k| k.to_vec()).collect()).unwrap_or_default();
+            obs.attach_unsettled_entries += keys.len();
+            notes.push(format!("-- resume {name}: attach.unsettled tags = {:?}", keys));
+            for dl in dls.iter().filter(|x| x.link == li) {
+                let held = keys.contains(&dl.tag);
+                // settled from the sender's point of view: sent pre-settled, or the receiver settled it, or
+                // the sender itself sent the settling disposition
+                let is_settled = dl.presettled || dl.peer_settled || dl.lib_settled;
+                if is_settled && held && !dl.settled_early {
+                    obs.fails.push((
+                        "sender-retains-settled-delivery".into(),
+                        format!(
+                            "delivery {} (tag {:?}) on {name} is settled ({}) but the sender's attach after a non-closing detach + resume still lists it in `unsettled`",
+                            dl.id,
+                            dl.tag,
+                            if dl.presettled { "sent pre-settled" } else if dl.peer_settled { "settled by the receiver" } else { "settled by the sender's own disposition" }
+                        ),
+                        n,
+                    ));
+                }
+                // Permissive reading: a delivery whose terminal outcome is known but which nobody has settled
+                // yet may or may not be listed.  A delivery without any terminal outcome is still unsettled
+                // and has to be there.
+                if !is_settled && dl.terminal.is_none() && !held {
+                    obs.fails.push((
+                        "sender-drops-unsettled-delivery".into(),
+                        format!(
+                            "delivery {} (tag {:?}) on {name} has no outcome yet and is not settled, but the sender's attach after a non-closing detach + resume does not list it in `unsettled` ({:?})",
+                            dl.id, dl.tag, keys
+                        ),
+                        n,
+                    ));
+                }
+            }
+        }
+        obs.final_checked = obs.machinery.is_none();
+    }
+    for (_, r) in &resolved_before {
+        if r.starts_with("Ok(Accepted") {
+            obs.resolved_acc += 1;
+        } else if r.starts_with("Ok(") {
+            obs.resolved_other += 1;
+        }
+    }
+    obs.fails.sort();
+    obs.fails.dedup();
+    let mut tr = vec![format!("snd-settle-mode {snd:?}, rcv-settle-mode {rcv:?}; history {:?}", events.iter().map(|e| e.name()).collect::<Vec<_>>())];
+    tr.extend(vlib::peer::trace_to_strings(&c.peer.trace).into_iter().filter(|l| !l.contains("HEADER") && !l.contains(" open(") && !l.contains(" begin(")));
+    tr.extend(notes);
+    tr.push(format!("send results: {:?}", resolved_before));
+    obs.trace = tr;
+    obs
+}
+
+fn state_key(dls: &[Dl], log: &Log) -> u64 {
+    let res: BTreeMap<usize, String> = log.lock().unwrap().iter().cloned().collect();
+    let v: Vec<(u32, bool, Option<&String>, bool, bool, Option<&String>)> =
+        dls.iter().enumerate().map(|(k, x)| (x.id, x.presettled, x.terminal.as_ref(), x.peer_settled, x.lib_settled, res.get(&k))).collect();
+    h64(&v)
+}
+
+/// Judge the state reached at quiescence after one event (the statement of C02, sender side).
+#[allow(clippy::too_many_arguments)]
+fn judge(rcv: Rcv, dls: &mut [Dl], trace: &[WFrame], cursor: &mut usize, log: &Log, base: u32, after: &str, required: Option<BTreeSet<u32>>, step: usize, obs: &mut Obs) {
+    // (1) dispositions written by the library's sending endpoints in this step
+    let mut settled_now: BTreeSet<u32> = BTreeSet::new();
+    for w in &trace[*cursor..] {
+        if w.dir != Dirn::FromLib {
+            continue;
+        }
+        if let Body::Perf(Performative::Disposition(dp)) = &w.body {
+            if dp.role != Role::Sender {
+                obs.fails.push((
+                    "sender-disposition-wrong-role".into(),
+                    format!("after {after}: the client has only sending links but wrote {}", w.short()),
+                    step,
+                ));
+                continue;
+            }
+            if !dp.settled {
+                continue;
+            }
+            obs.sender_settles_seen += 1;
+            let f = dp.first.wrapping_sub(base);
+            let l = dp.last.unwrap_or(dp.first).wrapping_sub(base);
+            for dl in dls.iter_mut().filter(|x| !x.presettled && covered(f, l).contains(&x.id)) {
+                settled_now.insert(dl.id);
+                // "the sender sends that settling disposition for every delivery the receiver reported a
+                // terminal outcome for" - not for a delivery whose outcome is still open: settling it makes
+                // the receiver forget the delivery, so its send can never complete with the receiver's outcome.
+                if dl.terminal.is_none() && !dl.peer_settled && !dl.settled_early {
+                    dl.settled_early = true;
+                    obs.fails.push((
+                        "sender-settles-delivery-without-terminal-outcome".into(),
+                        format!("after {after}: the sender wrote {} covering delivery {} for which the receiver has reported no terminal outcome", w.short(), dl.id),
+                        step,
+                    ));
+                }
+                dl.lib_settled = true;
+            }
+        }
+    }
+    *cursor = trace.len();
+    // (2) rcv-settle-mode second: every delivery the receiver has just reported a terminal outcome for (unsettled)
+    // gets the sender's settling disposition (ranges allowed; ids outside the scenario's deliveries are ignored)
+    if let Some(req) = required {
+        let missing: Vec<u32> = req.iter().copied().filter(|id| !dls.iter().any(|x| x.id == *id && x.lib_settled)).collect();
+        if !missing.is_empty() {
+            let done: Vec<u32> = req.iter().copied().filter(|id| !missing.contains(id)).collect();
+            // shape of the failure: the ids left out are the tail of the ids concerned / something else
+            let shape = if done.iter().all(|x| missing.iter().all(|m| m > x)) { "last-run" } else { "other" };
+            obs.fails.push((
+                format!("sender-settling-disposition-missing[{shape}]"),
+                format!(
+                    "rcv-settle-mode second, after {after}: the receiver reported terminal outcomes (unsettled) for deliveries {:?}; the sender wrote a settling disposition (role=sender, settled=true) for {:?} only - none for {:?}; sender dispositions in this step cover {:?}",
+                    req, done, missing, settled_now
+                ),
+                step,
+            ));
+        }
+    }
+    let _ = rcv;
+    // (3) the send futures
+    let res = log.lock().unwrap().clone();
+    for (k, dl) in dls.iter().enumerate() {
+        let got: Vec<&String> = res.iter().filter(|(kk, _)| *kk == k).map(|(_, r)| r).collect();
+        if got.len() > 1 {
+            obs.fails.push(("send-resolved-twice".into(), format!("after {after}: send #{k} (delivery {}) completed {} times: {:?}", dl.id, got.len(), got), step));
+            continue;
+        }
+        let accepted = format!("Ok({:?})", AmqpOutcome::Accepted(Accepted {}));
+        let want: Option<&String> = if dl.presettled { Some(&accepted) } else { dl.terminal.as_ref() };
+        match (want, got.first()) {
+            (None, None) => {}
+            (Some(w), Some(g)) if *g == w => {
+                if dl.presettled && step == 0 {
+                    obs.presettled_immediate += 1;
+                }
+            }
+            (None, Some(g)) => obs.fails.push((
+                "send-resolved-without-terminal-outcome".into(),
+                format!("after {after}: send #{k} (delivery {}) completed with {g} although no terminal disposition has covered its delivery-id", dl.id),
+                step,
+            )),
+            (Some(w), None) => obs.fails.push((
+                if dl.presettled { "presettled-send-not-resolved".to_string() } else { "send-not-resolved".to_string() },
+                format!(
+                    "after {after}: send #{k} (delivery {}{}) is still pending; expected {w}",
+                    dl.id,
+                    if dl.presettled { ", sent pre-settled" } else { "" }
+                ),
+                step,
+            )),
+            (Some(w), Some(g)) => obs.fails.push((
+                "send-resolved-with-wrong-outcome".into(),
+                format!("after {after}: send #{k} (delivery {}) completed with {g}; the first terminal disposition covering its delivery-id carried {w}", dl.id),
+                step,
+            )),
+        }
+    }
+}
+
+// ------------------------------------------------------------------------------------------------
+// drivers
+// ------------------------------------------------------------------------------------------------
+
+/// shortest failing history per signature (ties: smallest), with the number of failing executions
+#[derive(Default)]
+pub struct Collect {
+    pub best: BTreeMap<String, (Vec<String>, serde_json::Value, String, Vec<String>)>,
+    pub count: BTreeMap<String, u64>,
+}
+
+impl Collect {
+    pub fn add(&mut self, sig: &str, names: Vec<String>, replay: serde_json::Value, detail: String, trace: Vec<String>) {
+        *self.count.entry(sig.to_string()).or_insert(0) += 1;
+        let better = match self.best.get(sig) {
+            None => true,
+            Some((n, _, _, _)) => (names.len(), &names) < (n.len(), n),
+        };
+        if better {
+            self.best.insert(sig.to_string(), (names, replay, detail, trace));
+        }
+    }
+    pub fn report(self, out: &mut Outcome, prefix: &str) {
+        for (sig, (names, replay, detail, trace)) in self.best {
+            let n = self.count.get(&sig).copied().unwrap_or(1);
+            let mut r = replay;
+            r["trace"] = json!(trace);
+            out.violation(sig, format!("{prefix} history {:?} ({} failing executions in this class): {detail}", names, n), r);
+        }
+    }
+}
+
+fn run_history_a(snd: Snd, rcv: Rcv, evs: Vec<Ev>) -> (HistOut, Obs) {
+    let scen: Scenario<Obs> = {
+        let evs = evs.clone();
+        Arc::new(move || {
+            let evs = evs.clone();
+            Box::pin(scenario_a(snd, rcv, evs))
+        })
+    };
+    let ex = run_exec(vec![], &RunCfg::none(), &scen);
+    let mut out = HistOut::default();
+    let mut o = match ex.out {
+        Some(o) => o,
+        None => {
+            out.executed = evs.len();
+            out.machinery = Some(format!("C02/A scenario died ({snd:?},{rcv:?},{:?}): panics {:?} watchdog {}", evs.iter().map(|e| e.name()).collect::<Vec<_>>(), ex.panics, ex.watchdog));
+            return (out, Obs::default());
+        }
+    };
+    out.executed = o.executed;
+    out.state_keys = o.state_keys.clone();
+    out.trace = o.trace.clone();
+    out.machinery = o.machinery.take().map(|m| format!("C02/A ({snd:?},{rcv:?},{:?}): {m}", evs.iter().map(|e| e.name()).collect::<Vec<_>>()));
+    if ex.spun {
+        out.machinery = Some(format!("C02/A busy loop detected ({snd:?},{rcv:?},{:?})", evs.iter().map(|e| e.name()).collect::<Vec<_>>()));
+    }
+    if !ex.panics.is_empty() && out.machinery.is_none() {
+        out.machinery = Some(format!("C02/A panic in a task ({snd:?},{rcv:?},{:?}): {:?}", evs.iter().map(|e| e.name()).collect::<Vec<_>>(), ex.panics));
+    }
+    (out, o)
+}
+
+#[derive(Default)]
+pub struct Totals {
+    pub executions: u64,
+    pub states: u64,
+    pub transitions: u64,
+    pub truncated: bool,
+    pub completed: Vec<String>,
+    pub cut: Vec<String>,
+    pub samples: Vec<Vec<String>>,
+}
+
+fn part_a(ctx: &Ctx, deadline: Instant, out: &mut Outcome, tot: &mut Totals) {
+    let pairs: Vec<(Snd, Rcv)> = [Snd::Unsettled, Snd::Mixed, Snd::Settled].into_iter().flat_map(|s| [Rcv::First, Rcv::Second].into_iter().map(move |r| (s, r))).collect();
+    // (alphabet kind, depth) levels, in the order they are run; lower depths first so that the shortest
+    // counterexample of a class is found
+    let levels: Vec<(bool, usize)> = if ctx.quick() {
+        vec![(true, 1), (true, 2), (true, 3)]
+    } else {
+        // (wide alphabet?, depth)
+        vec![(true, 1), (true, 2), (true, 3), (true, 4), (false, 5)]
+    };
+    let collect = Mutex::new(Collect::default());
+    let cnt_out3 = AtomicU64::new(0);
+    let cnt_acc = AtomicU64::new(0);
+    let cnt_other = AtomicU64::new(0);
+    let cnt_pre = AtomicU64::new(0);
+    let cnt_echo = AtomicU64::new(0);
+    let cnt_final = AtomicU64::new(0);
+    let cnt_entries = AtomicU64::new(0);
+    for (wide, depth) in levels {
+        for (snd, rcv) in pairs.iter().copied() {
+            // with snd-settle-mode settled every delivery is pre-settled and every disposition refers to an
+            // unknown delivery: the deepest levels add nothing there
+            let depth_here = if snd == Snd::Settled { depth.min(3) } else { depth };
+            if depth_here < depth {
+                continue;
+            }
+            let alpha = alphabet(rcv, wide);
+            let label = format!("A:{snd:?}/{rcv:?} depth {depth_here} over {} events", alpha.len());
+            if Instant::now() > deadline {
+                tot.truncated = true;
+                tot.cut.push(label);
+                continue;
+            }
+            let st = search(alpha.len(), depth_here, ctx.threads, deadline, |h| {
+                let evs: Vec<Ev> = h.iter().map(|i| alpha[*i]).collect();
+                let (mut ho, o) = run_history_a(snd, rcv, evs.clone());
+                if o.outstanding_at_start >= 3 {
+                    cnt_out3.fetch_add(1, Ordering::Relaxed);
+                }
+                cnt_acc.fetch_add(o.resolved_acc as u64, Ordering::Relaxed);
+                cnt_other.fetch_add(o.resolved_other as u64, Ordering::Relaxed);
+                cnt_pre.fetch_add(o.presettled_immediate as u64, Ordering::Relaxed);
+                cnt_echo.fetch_add(o.sender_settles_seen as u64, Ordering::Relaxed);
+                cnt_final.fetch_add(o.final_checked as u64, Ordering::Relaxed);
+                cnt_entries.fetch_add(o.attach_unsettled_entries as u64, Ordering::Relaxed);
+                if !o.fails.is_empty() {
+                    let mut c = collect.lock().unwrap();
+                    for (sig, detail, step) in &o.fails {
+                        let pre: Vec<Ev> = evs[..(*step).min(evs.len())].to_vec();
+                        let names: Vec<String> = pre.iter().map(|e| e.name()).collect();
+                        c.add(sig, names.clone(), json!({"part": "A", "snd": snd, "rcv": rcv, "events": pre, "event_names": names}), format!("snd-settle-mode {snd:?}, rcv-settle-mode {rcv:?}: {detail}"), o.trace.clone());
+                    }
+                }
+                ho.fails.clear();
+                ho
+            });
+            tot.executions += st.executions;
+            tot.states += st.distinct_states;
+            tot.transitions += st.distinct_transitions;
+            if st.truncated {
+                tot.truncated = true;
+                tot.cut.push(label);
+            } else {
+                tot.completed.push(label);
+            }
+            for m in st.machinery.into_iter().take(2) {
+                if out.machinery_errors.len() < 8 {
+                    out.machinery_errors.push(m);
+                }
+            }
+            if tot.samples.len() < 2 && depth_here >= 3 && rcv == Rcv::Second {
+                tot.samples.extend(st.sample_traces.into_iter().take(1));
+            }
+        }
+    }
+    collect.into_inner().unwrap().report(out, "sender side,");
+    out.set("a_executions_with_3plus_unsettled_deliveries_outstanding", cnt_out3.load(Ordering::Relaxed));
+    out.set("a_sends_resolved_accepted", cnt_acc.load(Ordering::Relaxed));
+    out.set("a_sends_resolved_rejected_released_modified", cnt_other.load(Ordering::Relaxed));
+    out.set("a_presettled_sends_resolved_immediately", cnt_pre.load(Ordering::Relaxed));
+    out.set("a_sender_settling_dispositions_seen", cnt_echo.load(Ordering::Relaxed));
+    out.set("a_detach_resume_inspections", cnt_final.load(Ordering::Relaxed));
+    out.set("a_unsettled_entries_seen_in_resume_attach", cnt_entries.load(Ordering::Relaxed));
+}
+
+// ------------------------------------------------------------------------------------------------
+// Part C: schedules of "transfer written, the disposition comes back very fast"
+// ------------------------------------------------------------------------------------------------
+
+#[derive(Debug, Clone, Default, Hash)]
+struct CObs {
+    results: Vec<String>,
+    setup_error: Option<String>,
+}
+
+const CT: Duration = Duration::from_secs(5);
+
+async fn scenario_c() -> CObs {
+    let mut r = CObs::default();
+    let (_pipe, a, b) = Pipe::new();
+    // real listener: the receiver accepts every delivery as soon as it has it
+    tokio::spawn(async move {
+        let acceptor = ConnectionAcceptor::new("lib-listener");
+        let Ok(mut conn) = acceptor.accept(b).await else { return };
+        let sacc = SessionAcceptor::new();
+        while let Ok(mut session) = sacc.accept(&mut conn).await {
+            tokio::spawn(async move {
+                let lacc = LinkAcceptor::new();
+                while let Ok(ep) = lacc.accept(&mut session).await {
+                    if let LinkEndpoint::Receiver(mut rx) = ep {
+                        tokio::spawn(async move {
+                            while let Ok(dv) = rx.recv::<Value>().await {
+                                if !rx.auto_accept() && rx.accept(&dv).await.is_err() {
+                                    break;
+                                }
+                            }
+                        });
+                    }
+                }
+            });
+        }
+    });
+    macro_rules! setup {
+        ($what:expr, $fut:expr) => {
+            match tokio::time::timeout(CT, $fut).await {
+                Ok(Ok(v)) => v,
+                Ok(Err(e)) => {
+                    r.setup_error = Some(format!("set-up step '{}' failed: {:?}", $what, e));
+                    return r;
+                }
+                Err(_) => {
+                    r.setup_error = Some(format!("set-up step '{}' hangs", $what));
+                    return r;
+                }
+            }
+        };
+    }
+    let mut conn = setup!("open", Connection::builder().container_id("client").open_with_stream(a));
+    let mut session = setup!("begin", Session::begin(&mut conn));
+    let s1 = setup!("attach link-1", Sender::attach(&mut session, "link-1", "q1"));
+    let s2 = setup!("attach link-2", Sender::attach(&mut session, "link-2", "q2"));
+    tokio::time::sleep(Duration::from_millis(1)).await;
+    // the race: two application tasks send at the same instant; the listener's dispositions come back while
+    // the senders are still doing their bookkeeping
+    let mut tasks = vec![];
+    for (li, mut s) in [s1, s2].into_iter().enumerate() {
+        tasks.push(tokio::spawn(async move {
+            let mut res = vec![];
+            for k in 0..2 {
+                let x = tokio::time::timeout(CT, s.send(format!("m-{li}-{k}"))).await;
+                res.push(match x {
+                    Ok(Ok(o)) => format!("link-{} send {k}: Ok({:?})", li + 1, o),
+                    Ok(Err(e)) => format!("link-{} send {k}: Err({:?})", li + 1, e),
+                    Err(_) => format!("link-{} send {k}: still pending after 5 s of virtual time", li + 1),
+                });
+            }
+            (res, s)
+        }));
+    }
+    let mut keep = vec![];
+    for t in tasks {
+        match t.await {
+            Ok((res, s)) => {
+                r.results.extend(res);
+                keep.push(s);
+            }
+            Err(e) => r.results.push(format!("sending task died: {e:?}")),
+        }
+    }
+    r
+}
+
+fn part_c(ctx: &Ctx, deadline: Instant, out: &mut Outcome) -> (u64, u64, String, bool) {
+    let scen: Scenario<CObs> = Arc::new(|| Box::pin(scenario_c()));
+    let bounds = if ctx.quick() {
+        Bounds::new(1).kind(Kind::Task, 1).kind(Kind::Select, 1)
+    } else {
+        Bounds::new(2).kind(Kind::Task, 2).kind(Kind::Select, 1).kind(Kind::Preempt, 1)
+    };
+    let cfg = RunCfg::default();
+    let fails: Mutex<Vec<(String, String, Vec<vlib::tape::Point>)>> = Mutex::new(vec![]);
+    let good = AtomicU64::new(0);
+    let st = explore(&cfg, &bounds, &scen, ctx.threads, deadline, |e| {
+        match &e.out {
+            None => fails.lock().unwrap().push(("machinery".into(), format!("C02/C scenario died: {:?}", e.panics), e.points.clone())),
+            Some(o) if o.setup_error.is_some() => fails.lock().unwrap().push(("machinery".into(), format!("C02/C {}", o.setup_error.clone().unwrap()), e.points.clone())),
+            Some(o) => {
+                let bad: Vec<&String> = o.results.iter().filter(|x| !x.contains("Ok(Accepted")).collect();
+                if o.results.len() != 4 || !bad.is_empty() {
+                    fails.lock().unwrap().push((
+                        "fast-disposition-send-not-accepted".into(),
+                        format!("real listener accepts every delivery at once, but: {:?} (all results {:?})", bad, o.results),
+                        e.points.clone(),
+                    ));
+                } else {
+                    good.fetch_add(1, Ordering::Relaxed);
+                }
+            }
+        }
+        h64(&e.out)
+    });
+    let mut seen = BTreeSet::new();
+    for (s, dtl, points) in fails.into_inner().unwrap() {
+        if s == "machinery" {
+            if out.machinery_errors.len() < 8 {
+                out.machinery_errors.push(dtl);
+            }
+        } else if seen.insert(s.clone()) {
+            let dev: Vec<String> = points.iter().filter(|p| p.chosen != 0).map(|p| format!("{:?}={}", p.kind, p.chosen)).collect();
+            out.violation(s, format!("{dtl}; deviations from the default schedule: {:?}", dev), json!({"part": "C", "schedule": points}));
+        }
+    }
+    for dv in &st.divergences {
+        out.machinery_errors.push(format!("C02/C {dv}"));
+    }
+    out.set("c_schedules_all_sends_accepted", good.load(Ordering::Relaxed));
+    (
+        st.executions,
+        st.points_total,
+        format!("{} ({} executions; default run: {} task choice points of which {} with >= 2 runnable tasks, {} select choice points; level {:?} complete)", bounds.describe(), st.executions, st.choice_points_by_kind[Kind::Task.idx()], st.branching_points_by_kind[Kind::Task.idx()], st.choice_points_by_kind[Kind::Select.idx()], st.completed_level),
+        st.exhaustive,
+    )
+}
+
+// ------------------------------------------------------------------------------------------------
+
+pub fn run(ctx: &Ctx) -> Outcome {
     let mut out = Outcome::new("model_checking");
-    out.machinery_errors.push("check C02 is not built yet".into());
+    if let Some(p) = &ctx.replay {
+        return replay(p, out);
+    }
+    let t0 = Instant::now();
+    let budget = Duration::from_secs_f64(ctx.budget_s);
+    // budget split: A 55 %, B 25 %, C the rest
+    let (fa, fb) = if ctx.quick() { (0.5, 0.75) } else { (0.55, 0.8) };
+    let mut tot = Totals::default();
+    part_a(ctx, t0 + budget.mul_f64(fa), &mut out, &mut tot);
+    rx::part_b(ctx, t0 + budget.mul_f64(fb), &mut out, &mut tot);
+    let c = part_c(ctx, t0 + budget, &mut out);
+    out.set("states", tot.states.max(1));
+    out.set("transitions", tot.transitions.max(1) + c.1);
+    out.set("traces_validated_against_impl", tot.executions + c.0);
+    out.set("history_executions", tot.executions);
+    out.set("schedule_executions", c.0);
+    out.set("samples", json!(tot.samples));
+    out.set("exhaustive", !tot.truncated && c.3);
+    out.set("levels_completed", json!(tot.completed));
+    out.set("levels_cut_by_budget", json!(tot.cut));
+    out.set(
+        "bound",
+        format!(
+            "sender side: {}; receiver side: {}; schedules: {}{}",
+            if ctx.quick() { "all histories of <= 3 events over the wide alphabet (24 events) x 6 settle-mode pairs" } else { "all histories of <= 4 events over the wide alphabet (24 events) and of 5 events over the base alphabet (18 events) x settle-mode pairs (snd settled: <= 3)" },
+            if ctx.quick() { "all histories of <= 3 application calls / sender settlements over 18 (rcv first) / 21 (rcv second) events on 3 deliveries" } else { "all histories of <= 4 events over 18 / 21 events and of 5 events over 9 / 12 events on 3 deliveries" },
+            c.2,
+            if tot.truncated { " - CUT by the budget, see levels_cut_by_budget" } else { "" }
+        ),
+    );
+    out.set("rule", "states = distinct (per delivery: pre-settled, first terminal outcome reported, settled by receiver, settled by sender, result of its send future) at quiescence after each event; every state reached by executing the real links, session and connection engines against the scripted peer; plus the distinct schedules of the client/listener race");
+    out.assume("the scripted peer acts at quiescent points of the library; it never replaces a terminal outcome it has announced for a delivery by a different state, and in rcv-settle-mode second it does not settle a delivery before the sender has");
+    out.assume("a DeliveryFut cannot complete twice by construction of Rust futures; 'exactly once' is checked as: completes when, and not before, the first terminal disposition covering its delivery-id has arrived");
+    out.assume("a delivery whose terminal outcome is known but which neither side has settled may or may not be listed in the `unsettled` map of a resuming attach (both accepted)");
+    out.assume("schedule exploration is at tokio-poll granularity (task order, select branch); the window between queueing a transfer and inserting its unsettled entry lies inside one poll and has no preempt hook in the library, so it is not reachable on the single-threaded runtime");
+    out
+}
+
+fn replay(p: &std::path::Path, mut out: Outcome) -> Outcome {
+    let s = std::fs::read_to_string(p).unwrap_or_default();
+    let j: serde_json::Value = serde_json::from_str(&s).unwrap_or_default();
+    let r = &j["replay"];
+    match r["part"].as_str() {
+        Some("A") => {
+            let snd: Snd = serde_json::from_value(r["snd"].clone()).unwrap_or(Snd::Unsettled);
+            let rcv: Rcv = serde_json::from_value(r["rcv"].clone()).unwrap_or(Rcv::First);
+            let evs: Vec<Ev> = serde_json::from_value(r["events"].clone()).unwrap_or_default();
+            println!("replaying part A: snd {snd:?} rcv {rcv:?} {:?}", evs.iter().map(|e| e.name()).collect::<Vec<_>>());
+            let (ho, o) = run_history_a(snd, rcv, evs);
+            for l in &ho.trace {
+                println!("  {l}");
+            }
+            if let Some(m) = ho.machinery {
+                out.machinery_errors.push(m);
+            }
+            for (s, dtl, _) in o.fails {
+                println!("  FAIL {s}: {dtl}");
+                out.violation(s, dtl, r.clone());
+            }
+        }
+        Some("B") => rx::replay_b(r, &mut out),
+        _ => {
+            println!("schedule replay: re-running the exploration with quick bounds");
+            let ctx = Ctx {
+                id: "C02".into(),
+                tier: vlib::report::Tier::Quick,
+                seed: 0,
+                budget_s: 60.0,
+                start: Instant::now(),
+                replay: None,
+                threads: 8,
+            };
+            let mut o2 = Outcome::new("model_checking");
+            part_c(&ctx, Instant::now() + Duration::from_secs(60), &mut o2);
+            out.violations = o2.violations;
+        }
+    }
+    out.set("states", 1);
+    out.set("transitions", 1);
+    out.set("traces_validated_against_impl", 1);
+    out.set("samples", json!([r]));
+    out.set("exhaustive", true);
+    out.set("bound", "replay of one case");
+    out.set("rule", "replay");
     out
 }
